@@ -251,6 +251,7 @@ _public_ int m_thpool_add(m_thpool_t *pool, m_thpool_task task, void *arg) {
         if (!has_space(pool) && m_list_len(pool->threads) < pool->max_threads) {
             ret = add_threads(pool, 1);
             if (ret) {
+                pthread_mutex_unlock(&pool->lock);
                 return ret;
             }
         }
